@@ -380,6 +380,17 @@ func (w *World) userRegister(ui int, op *UserOp) {
 		if derr != nil {
 			return
 		}
+		if op.K == "enroll-other" {
+			// a connection type the framework has no case for (it still is a
+			// syscall.Conn): the call must answer with exactly one error result
+			switch v := c.(type) {
+			case *vnet.TCPConn:
+				c = wrappedTCP{v}
+			case *vnet.UnixConn:
+				c = wrappedUnix{v}
+			}
+			w.probes["enroll-unsupported-type"]++
+		}
 		ch, err = w.handle().Register(gnet.NewNetConnContext(ctx, c))
 	}
 	w.logf("user%d %s conn=%d in %s -> err=%v", ui, op.K, idx, before, err)
@@ -432,6 +443,8 @@ func (w *World) userRegister(ui int, op *UserOp) {
 		w.violate("C19", "register-both", "%s for conn %d delivered a connection and an error (%v)", op.K, idx, res.Err)
 	case res.Conn == nil && res.Err == nil:
 		w.violate("C19", "register-neither", "%s for conn %d delivered neither a connection nor an error", op.K, idx)
+	case res.Conn != nil && op.K == "enroll-other":
+		w.violate("C19", "register-unsupported-accepted", "enroll of an unsupported connection type for conn %d delivered a connection", idx)
 	case res.Conn != nil:
 		w.probes["register-succeeded"]++
 		cs := w.byConn[res.Conn]
@@ -442,3 +455,8 @@ func (w *World) userRegister(ui int, op *UserOp) {
 		ps.done, ps.refused = true, true
 	}
 }
+
+// connection types gnet has no case for (they are syscall.Conn through the
+// embedded connection)
+type wrappedTCP struct{ *vnet.TCPConn }
+type wrappedUnix struct{ *vnet.UnixConn }
